@@ -132,6 +132,24 @@ func cmdCases(args []string) {
 	f.Close()
 }
 
+func cmdFreeRun(args []string) {
+	fs := flag.NewFlagSet("freerun", flag.ExitOnError)
+	seed := fs.Int64("seed", 1, "seed")
+	clients := fs.Int("clients", 16, "client goroutines")
+	per := fs.Int("per", 150, "requests per client")
+	out := fs.String("out", "", "trace ndjson")
+	summary := fs.String("summary", "", "summary json")
+	_ = fs.Parse(args)
+	w := world.New()
+	sum, err := w.FreeRun(*seed, *clients, *per)
+	if err != nil {
+		fatal("%v", err)
+	}
+	writeTrace(*out, w.TakeTrace())
+	b, _ := json.MarshalIndent(sum, "", " ")
+	_ = ioutil.WriteFile(*summary, b, 0644)
+}
+
 func main() {
 	if len(os.Args) < 2 {
 		fatal("usage: pikeharness <cmd> ...")
@@ -141,6 +159,8 @@ func main() {
 		cmdReplay(os.Args[2:])
 	case "cases":
 		cmdCases(os.Args[2:])
+	case "freerun":
+		cmdFreeRun(os.Args[2:])
 	default:
 		fatal("unknown command %s", os.Args[1])
 	}
